@@ -40,10 +40,10 @@ claim(
     "DESIGN.md §4, §8 C02",
     "deterministic simulation: seeded fault-sequence search on the byte channel between real encoder/serialiser and the real validating decoder",
     "Seeded search over fault sequences (truncation/EOF at arbitrary points, stored bit/byte corruption, range loss/duplication/insertion/swap, field-aware overwrites, data-unit drop/duplication) applied to real encoder output for seeded small configurations; the real validator reads the result through a simulated file. Every run is one exactly repeatable execution; violations are minimised and replayed in a fresh interpreter. Sampling: a clean batch is evidence, not proof.",
-    "Assumes the scope bounds (<=64x64 pictures, depths <=4, <=16x16 slices, excursions <=2^40) implemented by wrapping the decoder's level-constraint assertion in the harness process; SimFile stands in for real files; faults are at rest (persistent).",
+    "Assumes the scope bounds (<=64x64 pictures, depths <=4, <=16x16 slices, excursions <=2^72) implemented by wrapping the decoder's level-constraint assertion in the harness process; SimFile stands in for real files; faults are at rest (persistent).",
 )
 
-_A_NOTE = "Assumes the scope bounds (<=64x64 pictures, depths <=4, <=16x16 slices, excursions <=2^40) enforced in the harness process only; SimFile/SimFS stand in for real files; faults are at rest (every receiver sees the same faulted bytes). Sampling, not proof."
+_A_NOTE = "Assumes the scope bounds (<=64x64 pictures, depths <=4, <=16x16 slices, excursions <=2^72) enforced in the harness process only; SimFile/SimFS stand in for real files; faults are at rest (every receiver sees the same faulted bytes). Sampling, not proof."
 
 claim(
     "C06",
